@@ -89,6 +89,9 @@ def init_ghost(x, st: St):
     st.ghost["expand_stack"] = V("sseq", z3.Const("expand_stack@entry", SeqS))
     for n in GHOST_LIST_FIELDS:
         st.ghost[n] = V("glist", (n + "@entry", []))
+    if x.c.abstract_calls:
+        from . import absmodels
+        absmodels.init_ghost(x, st)
     st.ghost["memo_valid"] = vbool(z3.Bool("memo_coherent@entry"))
     st.ghost["sql_log"] = V("sqllog", ())
     # context facts (hold after start_page): the path is non-empty
@@ -271,6 +274,9 @@ def contains(x, st, cont: V, item: V, node):
                 # uninterpreted predicate with the table's name
                 return z3.Function("in_table!" + str(len(parts)), S, z3.BoolSort())(item.t)
             return z3.Or(*parts) if parts else z3.BoolVal(False)
+    if cont.k == "ref" and type(st.heap[cont.t]).__name__ == "HRel":
+        from . import absmodels
+        return absmodels.rel_contains(x, st, st.heap[cont.t], item)
     if cont.k == "ref":
         o = st.heap[cont.t]
         if getattr(o, "items", None) is not None:
@@ -580,6 +586,9 @@ def index(x, st, a: V, i: V, node):
                     s.pc.append(z3.Implies(idx == j, r.t == e.t))
                 return [(s, r)]
             return x.check_v(st, z3.And(-n <= it, it < n), "IndexError", node, val)
+    if a.k == "ref" and type(st.heap[a.t]).__name__ == "HRel":
+        from . import absmodels
+        return absmodels.rel_index(x, st, a, st.heap[a.t], i)
     if a.k == "ref":
         o = st.heap[a.t]
         if isinstance(o, HList):
@@ -816,6 +825,11 @@ def generic_element(x, st, v: V | None):
                     return r
             if o.items is None and o.elem in ("str", "int", "bool"):
                 return fresh(o.elem, "el")
+    if v.k in ("zrow", "allpages", "nset"):
+        from . import absmodels
+        r = absmodels.iter_element(x, st, v, None)
+        if r is not None:
+            return r[0]
     if v.k == "matchiter":
         return make_match(x, st, v.t[0], v.t[1], None, "search")
     if v.k == "sqlcursor":
@@ -850,6 +864,11 @@ def spec_module(name):
 # ---------------------------------------------------------------- attributes
 
 def getattr_(x, st, v: V, name: str, node):
+    if v.k in ("page", "title", "zrow"):
+        from . import absmodels
+        r = absmodels.getattr_(x, st, v, name, node)
+        if r is not None:
+            return r
     if v.k == "ctx":
         f = ctx_field(x, st, name, node)
         if f is not None:
@@ -1071,6 +1090,12 @@ def call(x, st, f: V, pos: list, kw: dict, node, chain):
             return [(st, NONE)]
         if tag == "classattr":
             return [(st, vopq(f"{f.t[1]}.{f.t[2]}()"))]
+        if tag == "absmethod":
+            from . import absmodels
+            if f.t[1] == "removeprefix":
+                return [(st, V("name", absmodels.KEY(f.t[2].t)))]
+            if f.t[1].startswith("row:"):
+                return absmodels.row_method(x, st, f.t[2], f.t[1][4:], pos, node)
     if f.k == "mod":
         return call_module_fn(x, st, f.t, pos, kw, node, chain)
     if f.k == "type":
@@ -1158,6 +1183,10 @@ def call_opaque(x, st, f: V, pos, kw, node):
 
 
 def call_callback(x, st, name, cbname, pos, kw, node):
+    if cbname.startswith("abs:"):
+        from . import absmodels
+        x.assumptions.add(f"callback `{name}`: abstract contract {cbname[4:]}")
+        return absmodels.call_abstract(x, st, cbname[4:], pos, kw, node)
     if cbname == "total_str":
         a = pos[0] if pos else None
         t = x.as_str(a) if a is not None else None
@@ -1186,6 +1215,10 @@ def call_callback(x, st, name, cbname, pos, kw, node):
 
 
 def call_ctxmethod(x, st, name, pos, kw, node, chain):
+    if name in x.c.abstract_calls and x.depth == 0:
+        from . import absmodels
+        x.assumptions.add(f"abstract (SQL-level) contract of Wtp.{name}: {x.c.abstract_calls[name]} -- validated by the bounded tier")
+        return absmodels.call_abstract(x, st, x.c.abstract_calls[name], pos, kw, node)
     c = x.reg.by_target.get("core:Wtp." + name)
     if name in RECORDERS and (c is None or x.c.target != c.target):
         # effect of a recorder as seen by callers (its own body is verified
@@ -1407,6 +1440,9 @@ def _len_of(x, st, v: V):
         L = z3.Int("len!" + v.t)
         st.pc.append(L >= 0)
         return L
+    if v.k == "ref" and type(st.heap[v.t]).__name__ == "HSet":
+        from . import absmodels
+        return absmodels.set_len(x, st, st.heap[v.t])
     if v.k == "ref":
         o = st.heap[v.t]
         if getattr(o, "items", None) is not None:
@@ -1650,6 +1686,9 @@ def call_method(x, st, recv: V, name: str, pos, kw, node, chain):
         o = st.heap[recv.t]
         if isinstance(o, HList):
             return list_method(x, st, recv, o, name, pos, kw, node)
+        if type(o).__name__ == "HSet":
+            from . import absmodels
+            return absmodels.set_method(x, st, recv, o, name, pos, node)
         return dict_method(x, st, recv, o, name, pos, kw, node)
     if k == "match":
         if name == "group":
